@@ -121,6 +121,13 @@ def errpure_set_fixed(ctx, prog):
                                 ok = a1[0] == "param" and a1[1] == 2 and t["dest"]["l"] == 0
     ctx.ob("SA-DELEGATE", "set_fixed_input_size_in_usize forwards u64::try_from(size) to set_fixed_input_size", ok,
            "argument is the Ok payload of try_from(size)" if ok else "the forwarded size is not the converted parameter", g.loc())
+    # ... and has no success of its own: a size it accepts without asking the checked function is never recorded, so a mismatching
+    # history (declare 0 through this entry, feed data, finalize; or declare another size afterwards) is no longer refused
+    # (an `Ok(())` written after `self.set_fixed_input_size(size)?` is dominated by the call and is the call's success, not the wrapper's)
+    dcalls = [i for i, t in g.calls() if callee_of(t).endswith("Generator::set_fixed_input_size")]
+    own_ok = [b for b in G.blocks_returning_variant(g, Sym(g), "Result::Ok") if not any(c != b and g.dominates(c, b) for c in dcalls)]
+    ctx.ob("SA-DELEGATE", "set_fixed_input_size_in_usize answers Ok only through set_fixed_input_size (no success outcome of its own)", not own_ok,
+           "no Ok is built in the wrapper" if not own_ok else "Ok built in the wrapper at block(s) %s" % own_ok, g.loc())
 
 
 def guards_finalize(ctx, prog, need=("mismatch", "toolarge")):
